@@ -292,6 +292,80 @@ def _tri(mat, n):
     return tuple(int(mat[a][b]) for a in range(n) for b in range(a + 1, n))
 
 
+FLOAT_CASES = [
+    # (n, w (upper triangle), g, tau, gam, initial statuses); zero recovery weights = nodes that never recover
+    (4, (1, 2, 0, 3, 1, 2), (1, 2, 3, 0), 1, 1, ("I", "S", "S", "S")),
+    (4, (1, 1, 1, 1, 1, 1), (0, 0, 1, 2), 2, 1, ("I", "I", "S", "S")),
+    (3, (3, 0, 1), (1, 2, 3), 1, 3, ("S", "I", "S")),
+    (4, (1, 0, 0, 2, 0, 3), (3, 1, 0, 2), 3, 1, ("S", "I", "S", "S")),
+]
+
+
+def _float_chunk(arg):
+    """seeded runs (real random source) with weights that are not exactly representable: the recorded run must be a
+    path of the TLC-emitted chain; with an unbounded horizon it must end in a terminal state of the chain"""
+    import random
+    (entry, sis, case, unit, seeds, trans) = arg
+    (n, w, g, tau, gam, st0) = case
+    EoN = _F["EoN"]
+    G = netepi.build_graph(n, w, g)
+    for u in G:
+        G.nodes[u]["g"] *= unit
+    for (u, v) in G.edges():
+        G.edges[u, v]["w"] *= unit
+    nodes = list(range(1, n + 1))
+    I0 = [u for u in nodes if st0[u - 1] == "I"]
+    tmax = 4.0 / unit if sis else float("inf")
+    out = []
+    for seed in seeds:
+        random.seed(seed)
+        try:
+            sim = getattr(EoN, entry)(G, float(tau), float(gam), initial_infecteds=I0, transmission_weight="w", recovery_weight="g",
+                                      tmax=tmax, return_full_data=True)
+            ch = []
+            for u in nodes:
+                ts, ss = sim.node_history(u)
+                for k in range(1, len(ts)):
+                    ch.append((float(ts[k]), u, ss[k - 1], ss[k]))
+        except Exception as ex:
+            out.append(("exception:%s" % type(ex).__name__, "seed %d, weight unit %r: %r" % (seed, unit, ex)))
+            continue
+        ch.sort(key=lambda c: c[0])
+        st = tuple(st0)
+        bad = None
+        for (t, u, old, new) in ch:
+            nxt = tuple(new if v == u else st[v - 1] for v in nodes)
+            if not any(s2 == nxt and r > 0 for (s2, r) in trans.get(st, [])):
+                bad = "the change %r from state %r is not a transition of the chain" % ((t, u, old, new), st)
+                break
+            st = nxt
+        if bad is None and not sis and trans.get(st, []):
+            bad = "the run stopped in state %r although %d transition(s) have positive rate and the horizon is unbounded" % (st, len(trans.get(st, [])))
+        if bad:
+            out.append(("run-not-a-terminated-path", "seed %d, weight unit %r: %s" % (seed, unit, bad)))
+    return out[:3], len(seeds)
+
+
+def float_part(chk, sis, entry):
+    from harness import master
+    nseeds = 12 if chk.tier == "quick" else 100
+    args = []
+    for case in FLOAT_CASES:
+        (n, w, g, tau, gam, st0) = case
+        trans, res = master.emit_one(n, w, g, tau, gam, sis)
+        chk.add_tlc("NetEpiOne: chain for the non-representable-weights scenario n=%d w=%r g=%r" % (n, w, g), res)
+        for unit in (0.1, 0.3, 1.0 / 3.0, 0.7):
+            args.append((entry, sis, case, unit, list(range(chk.seed * 1000, chk.seed * 1000 + nseeds)), trans))
+    runs = 0
+    for a, (probs, k) in zip(args, pool_map(_float_chunk, args)):
+        runs += k
+        chk.cov["evaluations"] += k
+        chk.cov["traces_validated_against_impl"] += k
+        for (kind, detail) in probs:
+            chk.violation("%s|%s|non-dyadic-weights%s" % (entry, kind, "" if sis else ",unbounded-horizon"), detail, {"case": list(a[2]), "unit": a[3]})
+    chk.part(entry + " seeded runs with weights that are not exactly representable, validated as (terminated) paths of the chain", runs=runs)
+
+
 def _fsir(i):
     from harness import event_sir
     return event_sir.fast_sir_unweighted_scripted(_F["scn"][i], _F["refs"][i], _F["EoN"])
@@ -376,6 +450,7 @@ def main(argv=None, sis=False):
     gillespie_part(chk, sis, "Gillespie_SIS" if sis else "Gillespie_SIR")
     special_part(chk, sis, "Gillespie_SIS" if sis else "Gillespie_SIR")
     fast_part(chk, sis, EoN)
+    float_part(chk, sis, "Gillespie_SIS" if sis else "Gillespie_SIR")
     from harness import stamina
     stamina.probe(EoN, chk, entry="weighted sampler of Gillespie_%s" % ("SIS" if sis else "SIR"))
     rule = ("every (weighted graph, rate pair, initial status vector with >=1 infected node) of the TLC-emitted NetEpi state graph is one scenario; "
